@@ -5,7 +5,7 @@ import json, subprocess
 CLAIMS = {
  "C13": dict(
    text="Proof of absence of panics for arbitrary input: every panic site (nil dereference, index/slice bounds, make with a bad length, failed type assertion, explicit panic, log.Panic, nil-map write, negative shift) in the native primitive codec, every value decoder of channel/wallet/wire, all 15 client message decoders, the native envelope decoder, the sim backend unmarshalers and the protobuf-to-domain conversions is an obligation 'unreachable', discharged with every primitive read returning an error or an arbitrary value of its full range; decoders with loops carry invariants; postconditions prove the documented limits on success (assets, participants, sub-allocations via Allocation.Valid and explicit checks; big-integer byte length <= MaxBigIntLength). perunio.Decode's variadic type switch is executed exactly per call site (concrete argument types), not modelled. Counterexamples of failed panic obligations in decoders are turned into byte strings and replayed on the real decoder (this found and confirmed the unknown-backend-id and negative-length defects, now fixed).",
-   note="Trusted: proto.Unmarshal and generated getters; third-party UnmarshalBinary/Decode of unknown dynamic types; start-up configuration (a channel backend registered, NewAppID/Resolve/wire.NewAddress non-nil or error, registries hold non-nil entries); frames of the protobuf leaf conversions (noframe). Termination argued (counted loops over limit-checked lengths), memory exhaustion not an obligation. Quick tier: 72 functions; the protobuf composite message conversions and protobuf envelope decoder are in the thorough tier (minutes).",
+   note="Trusted: proto.Unmarshal and generated getters; third-party UnmarshalBinary/Decode of unknown dynamic types; start-up configuration (a channel backend registered, NewAppID/Resolve/wire.NewAddress non-nil or error, registries hold non-nil entries); frames of the protobuf leaf conversions (noframe). Termination argued (counted loops over limit-checked lengths), memory exhaustion not an obligation.",
    design="4/C13"),
  "C01": dict(
    text="Proof: the object invariant machInv of the channel state machine (every non-nil staged signature slot is authenticated for exactly the staged state - verified against every address of that participant, or produced by channel.Sign in the own slot; the current transaction's slots are either all filled and authenticated for exactly the current state, or all nil) is established by newMachine and required/ensured by every machine and StateMachine operation, on success and on error, in every phase, for all arguments. The per-method postconditions show the current transaction changes only by promotion of a fully signed staged transaction or by SetProgressed (the all-nil alternative = adopted from a progression event). Arbitrary call sequences follow by induction; a writes-closure side check shows no other code writes the fields.",
